@@ -234,6 +234,11 @@ def check_step(nm, res, ev, sweeps, ref, seen, viol, ctx, counters):
     if hit and sweeps:
         viol.append(dict(what="hit_but_solved_again", request=nm, sweeps=sweeps, **ctx))
     seen.add(nm)
+    # the result has been judged: overwrite its arrays (they are the caller's; a cache that keeps handing out the same objects would
+    # serve the overwritten values to the next identical request)
+    from vlib import purity
+
+    purity.poison(res)
 
 
 def run_case(case):
